@@ -340,7 +340,7 @@ func init() {
 			}
 		}
 		for k, v := range profile {
-			fmt.Fprintf(os.Stderr, "profile %-55s %8.2fs refused-and-redrawn %d\n", k, v.Seconds(), refused[k])
+			fmt.Fprintf(os.Stderr, "profile %-55s %8.2fs refused-and-redrawn %d cases %d without-model %d\n", k, v.Seconds(), refused[k], issued[k], noModel[k])
 		}
 	}
 }
@@ -386,10 +386,17 @@ func emit(r *run.Runner, name string, fargs []w.Val, decoys [][]w.Val, seed int6
 		t0 := time.Now()
 		defer func() { profile[name] += time.Since(t0) }()
 	}
-	r.Run(run.Case{Prop: "C16", Fn: "Det:" + name, Tags: append([]string{"fn=" + name}, tags...), Trivial: trivial,
+	v := r.Run(run.Case{Prop: "C16", Fn: "Det:" + name, Tags: append([]string{"fn=" + name}, tags...), Trivial: trivial,
 		Args: []w.Val{w.List(fargs), dl, w.I(seed)}})
+	issued[name]++
+	if _, none := v.Model.(w.Nil); none || v.Model == nil {
+		noModel[name]++
+	}
 	return true
 }
 
 // refused: generated calls that a size guard refused (drawn again), per operation; printed with C16_PROFILE
 var refused = map[string]int{}
+
+// issued / noModel: cases per operation, and those for which the dispatcher ran no model (corr = prop); printed with C16_PROFILE
+var issued, noModel = map[string]int{}, map[string]int{}
